@@ -13,9 +13,11 @@ package main
 
 import (
 	"context"
+	"database/sql"
 	"database/sql/driver"
 	"errors"
 	"fmt"
+	"reflect"
 	"strings"
 	"sync"
 	"time"
@@ -596,6 +598,74 @@ func cancelThenDrain() []string {
 	}
 	if len(why) > 3 {
 		why = why[:3]
+	}
+	return why
+}
+
+// maps whose elements are pointers, Scanners or interfaces, as destinations of every
+// retrieval method (zoo layer; C18): whatever the outcome, it is not a panic (C18n: a map
+// element type that is itself a pointer dereferenced before SetMapIndex).
+type OvPtrMap map[string]*string
+type OvPtrIntMap map[string]*int64
+type OvNullMap map[string]sql.NullString
+type OvAnyPtrMap map[string]*any
+
+func ptrElemMaps() []string {
+	var why []string
+	rowsets := [][][]driver.Value{
+		{{"ann", "a"}},
+		{{nil, "a"}, {"bob", nil}},
+		{{int64(7), []byte("x")}},
+	}
+	try := func(what string, f func() error) {
+		defer func() {
+			if p := recover(); p != nil {
+				why = append(why, fmt.Sprintf("%s: panic: %v", what, p))
+			}
+		}()
+		f()
+	}
+	for _, sample := range []any{OvPtrMap{}, OvPtrIntMap{}, OvNullMap{}, OvAnyPtrMap{}} {
+		tn := reflect.TypeOf(sample).Name()
+		for _, q := range []string{"SELECT (name, nick) AS (&" + tn + ".*) FROM t", "SELECT &" + tn + ".name, &" + tn + ".nick FROM t"} {
+			s, err := sqlair.Prepare(q, sample)
+			if err != nil {
+				continue
+			}
+			for ri, rs := range rowsets {
+				sqldb, st := fakedrv.Open()
+				db := sqlair.NewDB(sqldb)
+				st.SetScript(fakedrv.Script{Columns: []string{"_sqlair_0", "_sqlair_1"}, Rows: rs})
+				ctx := context.Background()
+				what := fmt.Sprintf("%q read into %s, row set %d", q, tn, ri)
+				try(what+", Get", func() error {
+					d := reflect.MakeMap(reflect.TypeOf(sample)).Interface()
+					return db.Query(ctx, s).Get(d)
+				})
+				try(what+", Get(&map)", func() error {
+					d := reflect.New(reflect.TypeOf(sample))
+					d.Elem().Set(reflect.MakeMap(reflect.TypeOf(sample)))
+					return db.Query(ctx, s).Get(d.Interface())
+				})
+				try(what+", GetAll", func() error {
+					d := reflect.New(reflect.SliceOf(reflect.TypeOf(sample)))
+					return db.Query(ctx, s).GetAll(d.Interface())
+				})
+				try(what+", Iterator", func() error {
+					it := db.Query(ctx, s).Iter()
+					defer it.Close()
+					for it.Next() {
+						d := reflect.MakeMap(reflect.TypeOf(sample)).Interface()
+						it.Get(d)
+					}
+					return nil
+				})
+				sqldb.Close()
+			}
+		}
+	}
+	if len(why) > 4 {
+		why = why[:4]
 	}
 	return why
 }
